@@ -13,6 +13,8 @@
 //          r <id>               interval_tree::remove(node id)
 //          q <lb> <ub>          for_overlaps(fn, lb, ub)        prints "o <ids in callback order>"
 //          p <x>                for_overlaps(fn, x)             (one-argument form)
+//          qn <mode> <lb> <ub>  nested: the callback of the outer query runs an inner for_overlaps on the same tree (pt: point query at the
+//          pn <mode> <x>        hit's lower end, rg: range query [hit.lo, hit.hi]); prints "o <outer>" and "in <id> : <inner>" per outer hit
 //          qm <mode> <lb> <ub>  like q / p, but the callback modifies the caller's variables that were passed as bounds: co coalescing
 //          pm <mode> <x>        (lo = min(lo, n->lo), hi = max(hi, n->hi)), cu cursor advance, ga garbage; the answer must be that for the original bounds
 //          qt <kind> <lb> <ub>  for_overlaps(fn, (K)lb, (K)ub) with arguments of C++ type K = kind: u32 unsigned, usz size_t, i16 short,
@@ -254,6 +256,61 @@ template<class E> struct Har {
 		return seen;
 	}
 
+	// ---- nested queries (qn / pn ops): the callback of an outer query runs ANOTHER for_overlaps on the same tree (inner: point
+	// query at the hit's lower end -- mode pt -- or range query [hit.lo, hit.hi] -- mode rg).  Modelling assumption, checked here:
+	// a query keeps no state in the tree object (the model is a pure function), so the walk is re-entrant: the outer answer equals
+	// the plain query's, every inner answer is that of an independent query.  Prints "o <outer ids>" and per outer hit "in <id> : <ids>".
+	static void brute(Node *pool, int P, const std::vector<int> &seen, E lb, E ub, const char *what) {
+		std::vector<int> cnt(P, 0);
+		for(int i : seen) if(i >= 0 && i < P) cnt[i]++;
+		for(int i = 0; i < P; i++) {
+			bool want = pool[i].member && pool[i].lo <= ub && lb <= pool[i].hi;
+			if(want && cnt[i] == 0) vh::oracle("iv-missed", "%s query [%s,%s]: stored interval %d = [%s,%s] overlaps but the callback was not invoked for it",
+				what, S(lb).c_str(), S(ub).c_str(), i, S(pool[i].lo).c_str(), S(pool[i].hi).c_str());
+			if(!want && cnt[i] > 0) vh::oracle("iv-spurious", "%s query [%s,%s]: callback invoked for node %d = [%s,%s] (%s)",
+				what, S(lb).c_str(), S(ub).c_str(), i, S(pool[i].lo).c_str(), S(pool[i].hi).c_str(), pool[i].member ? "stored, does not overlap" : "not stored");
+			if(want && cnt[i] > 1) vh::oracle("iv-twice", "%s query [%s,%s]: callback invoked %d times for interval %d = [%s,%s]",
+				what, S(lb).c_str(), S(ub).c_str(), cnt[i], i, S(pool[i].lo).c_str(), S(pool[i].hi).c_str());
+		}
+	}
+	static void nested_query(IT &it, Node *pool, int P, E lb, E ub, bool one_arg, bool inner_range, bool dirty) {
+		std::vector<int> outer;
+		std::vector<std::vector<int>> inner;
+		size_t calls = 0;
+		bool nonmember = false;
+		auto fn = [&](Node *nd) {
+			if(++calls > ((size_t)P + 2) * (4 * (size_t)P + 16)) throw vh::AssertStop{"callback storm"};
+			if(!nd || nd < pool || nd >= pool + P) { nonmember = true; return; }
+			outer.push_back(nd->id);
+			inner.emplace_back();
+			std::vector<int> &in = inner.back();
+			auto fn2 = [&](Node *n2) {
+				if(++calls > ((size_t)P + 2) * (4 * (size_t)P + 16)) throw vh::AssertStop{"callback storm"};
+				if(!n2 || n2 < pool || n2 >= pool + P) { nonmember = true; return; }
+				in.push_back(n2->id);
+			};
+			if(inner_range) it.for_overlaps(fn2, nd->lo, nd->hi);
+			else it.for_overlaps(fn2, nd->lo);
+		};
+		if(one_arg) it.for_overlaps(fn, lb);
+		else it.for_overlaps(fn, lb, ub);
+		std::string s = "o";
+		for(int i : outer) s += " " + std::to_string(i);
+		emit(s);
+		for(size_t k = 0; k < outer.size(); k++) {
+			std::string l = "in " + std::to_string(outer[k]) + " :";
+			for(int i : inner[k]) l += " " + std::to_string(i);
+			emit(l);
+		}
+		if(nonmember) vh::oracle("iv-spurious", "callback invoked with a pointer that is not a pool node");
+		if(dirty || lb > ub) return;
+		brute(pool, P, outer, lb, ub, "outer (its callback ran inner queries)");
+		for(size_t k = 0; k < outer.size() && vh::g_oracle_count == 0; k++) {
+			Node &h = pool[outer[k]];
+			brute(pool, P, inner[k], h.lo, inner_range ? h.hi : h.lo, "inner");
+		}
+	}
+
 	// ---- queries whose arguments have another arithmetic type than the endpoint type P (qt <kind> lb ub / pt <kind> x):
 	// the same mathematical value, non-negative and exactly representable in both types.  Modelling assumption, checked here:
 	// the query is converted to P ONCE (for_overlaps takes P lb, P ub), so the answer equals the P-typed query's.
@@ -344,6 +401,13 @@ template<class E> struct Har {
 				E lb = C::parse(t[1]), ub = o == "q" ? C::parse(t[2]) : lb;
 				if(!C::valid(lb) || !C::valid(ub)) { emit("skip"); continue; }
 				try { query(it, pool.get(), P, lb, ub, lb, ub, o == "p", dirty); }
+				catch(vh::AssertStop &a) { vh::oracle("iv-assert", "FRG_ASSERT fired in for_overlaps: %s", a.where.c_str()); throw; }
+				if(vh::g_oracle_count > 0) { emit("stopped"); return; }
+				continue;
+			} else if((o == "qn" && t.size() == 4) || (o == "pn" && t.size() == 3)) {
+				E lb = C::parse(t[2]), ub = o == "qn" ? C::parse(t[3]) : lb;
+				if((t[1] != "pt" && t[1] != "rg") || !C::valid(lb) || !C::valid(ub)) { emit("skip"); continue; }
+				try { nested_query(it, pool.get(), P, lb, ub, o == "pn", t[1] == "rg", dirty); }
 				catch(vh::AssertStop &a) { vh::oracle("iv-assert", "FRG_ASSERT fired in for_overlaps: %s", a.where.c_str()); throw; }
 				if(vh::g_oracle_count > 0) { emit("stopped"); return; }
 				continue;
